@@ -156,6 +156,12 @@ fn init_app_routes(host: &HostConfig, host_index: usize) -> SubApp<AppState> {
     subapp
 }
 
+/// Runs the (private) connection condition (verification harness only).
+#[cfg(humphrey_verif)]
+pub fn verif_verify_connection(stream: &mut TcpStream, state: Arc<AppState>) -> bool {
+    verify_connection(stream, state)
+}
+
 /// Verifies that the client is allowed to connect by checking with the blacklist config.
 fn verify_connection(stream: &mut TcpStream, state: Arc<AppState>) -> bool {
     if let Ok(address) = stream.peer_addr() {
